@@ -142,6 +142,10 @@ F1 = [
     ("add", T(["H", "yy:i:7", "xx:Z:a"])), ("add", T(["H", "yy:i:7", "xx:f:1.5"])),
     ("rm", "nope"), ("rename", "nope", "Z"),
     ("rename", "A", "a b"), ("rename", "A", ""), ("rename", "p", "x,y"),
+    # a mention of an identifier that is in use by a line of another type
+    ("add", T(["L", "B", "+", "p", "+", "*"])), ("add", T(["L", "C", "-", "x", "+", "*"])),
+    ("add", T(["C", "p", "+", "B", "+", "0", "*"])), ("add", T(["P", "z", "B+,p+", "*"])),
+    ("add", T(["P", "z", "x+", "*"])),
 ]
 F2 = [("add", T(["S", i, "4", "*"])) for i in ("a", "e1", "g1", "o1", "u1")] + \
      [("add", T(["E", i, "c+", "b-", "0", "1", "0", "1", "*"])) for i in ("a", "e1", "g1", "o1", "u1")] + \
@@ -163,6 +167,11 @@ F2 = [("add", T(["S", i, "4", "*"])) for i in ("a", "e1", "g1", "o1", "u1")] + \
     ("add", T(["U", "u3", "b", "yy:i:1", "xx:i:2"])),
     ("rm", "nope"), ("rename", "nope", "z"),
     ("rename", "a", "a b"), ("rename", "a", ""), ("rename", "e1", "*x y"),
+    # a mention of an identifier that is in use by a line of another type
+    ("add", T(["G", "*", "c+", "e1+", "1", "*"])), ("add", T(["G", "*", "g1+", "c-", "1", "*"])),
+    ("add", T(["E", "*", "c+", "e1-", "0", "1", "0", "1", "*"])),
+    ("add", T(["E", "*", "o1+", "c-", "0", "1", "0", "1", "*"])),
+    ("add", T(["F", "e1", "q+", "0", "1", "0", "1", "*"])), ("add", T(["F", "u1", "q+", "0", "1", "0", "1", "*"])),
 ]
 U1 = universe.G1_CORE + [T(["H", "TS:i:1"]), T(["H", "xx:i:1"]),
                          T(["L", "B", "+", "C", "+", "*", "ID:Z:x"])]
